@@ -225,7 +225,8 @@ fn gen_lines(rng: &mut Rng, avoid: &[String]) -> Vec<String> {
         }
         if info.name == "std::flowcontrol::Function" && avoid.iter().any(|a| a == "function_named_like_flag") {
             // known finding: a function called true/false is invoked by the conditions of script-implemented commands
-            l = l.split(' ').map(|t| if is_flag_word(t) { "flagless" } else { t }).collect::<Vec<_>>().join(" ");
+            // (also through a variable whose value an earlier failing command made "false")
+            l = l.split(' ').enumerate().map(|(k, t)| if is_flag_word(t) || (k > 2 && t.starts_with("${")) { "flagless" } else { t }).collect::<Vec<_>>().join(" ");
         }
         lines.push(l);
     }
